@@ -394,7 +394,9 @@ def load_sensitivity (spec, f):
     amp = 1.0
     for l in spec ['loads']:
         if l ['k'] == 'trap':
-            amp = max (amp, 3.0 / max (abs (1 - w * w * l ['L'] * l ['C']), 1e-9))
+            # Z ~ j w L / (1 - x), x = w^2 L C: d ln Z = d ln L / (1 - x) + x d ln C / (1 - x)
+            x = w * w * l ['L'] * l ['C']
+            amp = max (amp, 2.0 * (1 + x) / max (abs (1 - x), 1e-9))
         elif l ['k'] == 'rlc' and l.get ('L') and l.get ('C'):
             x = w * l ['L'] - 1 / (w * l ['C'])
             amp = max (amp, 3.0 * (w * l ['L'] + 1 / (w * l ['C'])) / max (abs (complex (l.get ('R') or 0.0, x)), 1e-9))
